@@ -779,6 +779,6 @@ def TRUNC(
     if num_digits == 0:
         return math.trunc(number)
 
-    num_digits = int(num_digits)
-
-    return math.trunc(number * 10**num_digits) / 10**num_digits
+    # Truncate the decimal representation: multiplying by 10**num_digits in
+    # binary floating point is off by one unit for numbers like 1.15 or 0.29.
+    return _round(number, num_digits, _rounding=decimal.ROUND_DOWN)
